@@ -61,6 +61,14 @@ CLAIMED = {
          "Aggregation.tla (model-checked exhaustively on its own) is the sequential specification; AggLin.tla reads each recorded concurrent history (inv/ret stamps from one atomic counter) and TLC searches depth-first for a linearization that respects real-time order and reproduces every recorded result, every exported record and the final full state. A completed search without one is the violation. Runs are under the Go race detector; race/crash reports for go-ipfix frames are appended as operations that nothing explains.",
          "Trusted: TLC, harness stamps, the race detector for the schedules actually run. Worker-pool messages have no observable completion (30 ms quiescence wait). Histories are <= 40 operations; a search that times out is reported as inconclusive, never as a verdict.",
          "TLA+ sequential spec + TLC linearization search (AggLin.tla) over recorded concurrent histories under -race"),
+ "C01": ("DESIGN.md §4 C01",
+         "Pipeline.tla composes Exporter.tla with an ordered channel (head-only delivery for TCP/TLS, loss allowed for UDP/DTLS) and a delivery action that requires the delivered message to be the same as what was handed over (domain, sequence number, template fields incl. type/length/name, record count, every value). The channel skeleton is model-checked; real exporter->collector sessions over tcp/udp/tls/dtls x IPv4/IPv6 with templates from the full registry are validated event by event, and a reliable session must end with nothing in flight.",
+         "Trusted: TLC, harness value projections (typed getters), per-run certificates. Transport size limits as stated in the evidence assumptions.",
+         "TLA+ Pipeline spec (Exporter o channel o delivery) + TLC trace validation of real end-to-end sessions on 8 transport configurations"),
+ "C14": ("DESIGN.md §4 C14",
+         "ExporterConc.tla models application, refresher, connection checker, peer and any number of closers as interleaved processes; TLC checks CloseOnce, NoWriteAfterClose, ReturnedMeansStopped, RefreshKnown, application order and the liveness CloseInvoked ~> CloseReturned on all interleavings (87 k / 14 k states). Real runs under -race: every datagram at a raw UDP peer must be, byte for byte, the next pending application message or a refresh of a known template; refresh completeness per interval, silence after the marker that follows the last Close, failing sends after a TCP peer close, goroutine leaks and race-detector reports are all trace events decided by TLC.",
+         "Trusted: TLC, harness, race detector (schedules actually run), UDP loopback ordering, timing slack as stated.",
+         "TLA+ ExporterConc spec (TLC exhaustive + liveness) + TLC trace validation of peer-observed datagrams and lifecycle events under -race"),
 }
 PENDING = {}
 
